@@ -1284,8 +1284,11 @@ Vdetach(int32 vkey /* IN: vgroup key */)
         }
 
         /* write out vgroup */
-        if (Hputelement(vg->f, DFTAG_VG, vg->oref, Vgbuf, vgpacksize) == FAIL)
+        if (Hputelement(vg->f, DFTAG_VG, vg->oref, Vgbuf, vgpacksize) == FAIL) {
+            /* report the failure, but still release the vgroup below */
             HERROR(DFE_WRITEERROR);
+            ret_value = FAIL;
+        }
 
         vg->marked = 0;
         vg->new_vg = 0;
